@@ -429,7 +429,8 @@ def r6(ctx, Q, qname):
     rid = 'C20.R6'
     SHARED = {TP + 'tasks', TP + 'active', TP + 'stop'}
     MUTEX = TP + 'queue_mutex'
-    fns = [f for f in Q.defined() if f.name.startswith(TP) and in_repo(f)]
+    from ..effects import _fully_inlined
+    fns = [f for f in Q.defined() if f.name.startswith(TP) and in_repo(f) and not (f.d.get('_new_helper') and _fully_inlined(Q, f))]      # a helper extracted from these functions is analysed where it was inlined
     if len(fns) < 5:
         raise AnalysisBroken('thread_pool: expected constructor, destructor, size, enqueue, join; found %d functions' % len(fns))
     for f in fns:
@@ -514,7 +515,7 @@ def r6(ctx, Q, qname):
     for n in f.nodes():
         if n.get('k') == 'IfStmt' and any((m.get('callee_name') or '').startswith('std::condition_variable::wait') for m in walk(n['slots']['then'])):
             c = canon(n['slots']['cond'], env, subst=False)
-            okg = norm_and(c) == norm_and(negate(want))
+            okg = norm_and(nnf(c)) == norm_and(nnf(('!', want)))
             ctx.instance(rid, [qname, 'join', 'guard'], {'guard': show(c), 'ok': okg})
             if not okg:
                 ctx.finding(rid, f.id, 'guard', 'thread_pool::join skips the wait under %s, which is not the negation of the join condition' % show(c), node=n)
@@ -527,6 +528,20 @@ def r6(ctx, Q, qname):
     ctx.instance(rid, [qname, 'enqueue', 'push-then-notify'], {'ok': oke})
     if not oke:
         ctx.finding(rid, f.id, 'push-then-notify', 'thread_pool::enqueue does not notify a worker after queuing the task: the task may never run and join() never returns', loc=f.loc)
+
+
+def nnf(t, neg=False):
+    """negation normal form: negations pushed down to the comparisons (de Morgan), `!(a == b)` as `a != b`."""
+    if isinstance(t, tuple) and t:
+        if t[0] == '!' and len(t) == 2:
+            return nnf(t[1], not neg)
+        if t[0] in ('&&', '||'):
+            op = t[0] if not neg else ('||' if t[0] == '&&' else '&&')
+            return (op,) + tuple(nnf(x, neg) for x in t[1:])
+        if t[0] in ('==', '!=') and len(t) == 3:
+            op = t[0] if not neg else ('!=' if t[0] == '==' else '==')
+            return (op,) + t[1:]
+    return ('!', t) if neg else t
 
 
 def negate(t):
